@@ -200,6 +200,12 @@ def build_catalogue():
     op("vbptc128.encode")(lambda: ((lambda: (ba((MSG_A + MSG_B)[:72]),)), (lambda b: VBPTC12873.encode(b))))
     op("vbptc128.decode", "parse")(lambda: ((lambda: (VBPTC12873.encode(ba((MSG_A + MSG_B)[:72])),)), (lambda e: VBPTC12873.deinterleave_data_bits(e))))
     op("vbptc128.cs5", "parse")(lambda: ((lambda: (VBPTC12873.encode(ba((MSG_A + MSG_B)[:72])),)), (lambda e: VBPTC12873.deinterleave_cs5_bits(e))))
+    # the other documented input forms of the variable BPTC encoders (message + checksum, whole de-interleaved matrix)
+    op("vbptc128.encode_matrix_form")(lambda: ((lambda: (VBPTC12873.deinterleave_all_bits(VBPTC12873.encode(ba((MSG_A + MSG_B)[:72]))),)), (lambda b: VBPTC12873.encode(b))))
+    op("vbptc128.encode_77_bit_form")(lambda: ((lambda: (VBPTC12873.deinterleave_data_bits(VBPTC12873.encode(ba((MSG_B + MSG_A)[:72]))),)), (lambda b: VBPTC12873.encode(b))))
+    op("vbptc68.encode_matrix_form")(lambda: ((lambda: (VBPTC6828.deinterleave_all_bits(VBPTC6828.encode(ba(MSG_B[:28]))),)), (lambda b: VBPTC6828.encode(b))))
+    op("vbptc68.encode_36_bit_form")(lambda: ((lambda: (VBPTC6828.deinterleave_data_bits(VBPTC6828.encode(ba(MSG_A[:28]))),)), (lambda b: VBPTC6828.encode(b))))
+    op("vbptc32.encode_matrix_form_odd")(lambda: ((lambda: (VBPTC3211.deinterleave_all_bits(VBPTC3211.encode(ba(MSG_B[:11]), False)),)), (lambda b: VBPTC3211.encode(b, False))))
     op("vbptc68.encode")(lambda: ((lambda: (ba(MSG_A[:28]),)), (lambda b: VBPTC6828.encode(b))))
     op("vbptc68.decode", "parse")(lambda: ((lambda: (VBPTC6828.encode(ba(MSG_A[:28])),)), (lambda e: VBPTC6828.deinterleave_data_bits(e))))
     op("vbptc32.encode")(lambda: ((lambda: (ba(MSG_A[:11]),)), (lambda b: VBPTC3211.encode(b))))
